@@ -271,7 +271,7 @@ theorem inv_toC (c : Ctx) (t ht : Int) (h : WF c) (hl : c.bufLen ≤ 2147483647)
 
 /-- overrun: nothing is copied, the buffer is invalidated, -363 is pushed, FALSE is returned -/
 theorem input_overrun_refines (cc : CC) (hi : Inv cc) (data : Bytes) (hd : data ≠ [])
-    (hov : data.length + 1 > (toM cc).bufLen - (toM cc).position) :
+    (hlen : data.length ≤ 2147483647) (hov : data.length + 1 > (toM cc).bufLen - (toM cc).position) :
     Ctx.input (toM cc) data = emit (toM (SCPI_Input detectM parseM pushM cc (some data) data.length).1)
         (.input (SCPI_Input detectM parseM pushM cc (some data) data.length).2) ∧
     (SCPI_Input detectM parseM pushM cc (some data) data.length).1.ub = false ∧
@@ -285,13 +285,19 @@ theorem input_overrun_refines (cc : CC) (hi : Inv cc) (data : Bytes) (hd : data 
   have hd1 : data.length ≠ 0 := by intro h; exact hd (List.length_eq_zero_iff.mp h)
   have hd' : ((data.length : Int) == 0) = false := by simp [hd1]
   have hd'' : (data.length == 0) = false := by simp [hd1]
-  have e1 : wrapS32 (wrapU64 (cc.buffer_length - cc.buffer_position)) = cc.buffer_length - cc.buffer_position := by
-    rw [wrapU64_of_range _ (by omega) (by omega), wrapS32_of_range _ (by omega) (by omega)]
-  have hov' : (data.length : Int) > cc.buffer_length - cc.buffer_position - 1 := by omega
+  have hdl : (0 : Int) ≤ data.length := Int.natCast_nonneg _
   simp only [SCPI_Input, Ctx.input, hd', hd'', Bool.false_eq_true, if_false, toM_bufLen, toM_position, hov, if_true]
-  simp only [e1, chk_data, chk_pos, chk_len, chk_term, chk_type, chk_rest, chk_oof, chk_ub, chk_toM, hov', decide_true, if_true, pushM_toM, pushM_ub, pushM_oof, Int.toNat_zero]
-  refine ⟨by rfl, ?_, hi.oof, trivial⟩
-  simp only [hi.ub, Bool.false_or, Bool.or_eq_false_iff, Bool.not_eq_false', decide_eq_true_eq]
-  constructor <;> omega
+  -- whatever spelling the overrun test has: no conversion wraps, and the test succeeds
+  simp (disch := omega) only [wrapU64_of_range, wrapS32_of_range, chk_data, chk_pos, chk_len, chk_term, chk_type, chk_rest, chk_oof, chk_ub, chk_toM]
+  split
+  · simp only [pushM_toM, pushM_ub, pushM_oof, chk_data, chk_pos, chk_len, chk_term, chk_type, chk_rest, chk_oof, chk_ub, chk_toM, Int.toNat_zero]
+    refine ⟨by rfl, ?_, hi.oof, trivial⟩
+    simp only [hi.ub, Bool.false_or, Bool.or_eq_false_iff, Bool.not_eq_false', decide_eq_true_eq]
+    repeat' constructor
+    all_goals omega
+  · next hno =>
+    exfalso
+    simp only [decide_eq_true_eq] at hno
+    omega
 
 end ScpiVerif.Lemmas.InputC
